@@ -1224,6 +1224,34 @@ func (f *Frame) lookupLocal(name string, at *ssa.BasicBlock, heap *Heap) (Val, b
 			}
 		}
 		if best != nil {
+			// go/ssa records the declaration `x := map[K]V{}` / `x := []T{}` with a nil constant; when the
+			// variable is never reassigned every other reference names the one real definition
+			if c, isC := best.(*ssa.Const); isC && c.Value == nil {
+				var only ssa.Value
+				multi := false
+				for _, b := range f.fn.Blocks {
+					for _, in := range b.Instrs {
+						dr, ok := in.(*ssa.DebugRef)
+						if !ok || dr.IsAddr || dr.Object() == nil || dr.Object().Name() != name {
+							continue
+						}
+						if cc, isCC := dr.X.(*ssa.Const); isCC && cc.Value == nil {
+							continue
+						}
+						if only != nil && only != dr.X {
+							multi = true
+						}
+						only = dr.X
+					}
+				}
+				if only != nil && !multi {
+					if oi, ok := only.(ssa.Instruction); ok && (oi.Block() == at || oi.Block().Dominates(at)) {
+						if _, done := f.vals[only]; done {
+							return f.val(only), true
+						}
+					}
+				}
+			}
 			return f.val(best), true
 		}
 	}
